@@ -7,6 +7,7 @@ import (
 	"github.com/Comcast/gots/v2"
 	"github.com/Comcast/gots/v2/ebp"
 	"github.com/Comcast/gots/v2/packet/adaptationfield"
+	"io"
 	"math/rand"
 
 	"github.com/Comcast/gots/v2/packet"
@@ -195,7 +196,7 @@ func (x01) Exec(h []Ev) []Ev {
 			e["res"] = res
 			continue
 		}
-		e["sync_off"], e["sync_err"], e["pat_err"], e["pmt_err"] = 0, "nil", "nil", "nil"
+		e["sync_off"], e["sync_err"], e["pat_err"], e["pmt_err"], e["rest_len"] = 0, "nil", "nil", "nil", 0
 		e["nump"], e["spts_ok"], e["spts"], e["streams"], e["pids"] = 0, false, 0, []Ev{}, []int{}
 		e["panic"] = guard(func() {
 			st := GB(e["stream"])
@@ -206,7 +207,9 @@ func (x01) Exec(h []Ev) []Ev {
 				e["sync_err"] = "err"
 				return
 			}
-			pat, err := psi.ReadPAT(rd)
+			// the readers get a plain io.Reader (not the *bufio.Reader Sync needed): what they consume is then visible
+			plain := struct{ io.Reader }{rd}
+			pat, err := psi.ReadPAT(plain)
 			if err != nil {
 				e["pat_err"] = "err"
 				if err == gots.ErrPATNotFound {
@@ -220,7 +223,7 @@ func (x01) Exec(h []Ev) []Ev {
 			if serr != nil {
 				return
 			}
-			pmt, err := psi.ReadPMT(rd, pid)
+			pmt, err := psi.ReadPMT(plain, pid)
 			if err != nil {
 				e["pmt_err"] = "err"
 				if err == gots.ErrPMTNotFound {
@@ -228,6 +231,8 @@ func (x01) Exec(h []Ev) []Ev {
 				}
 				return
 			}
+			left, _ := io.ReadAll(plain)
+			e["rest_len"] = len(left) // what the readers left unread: everything behind the packet that completed the PMT
 			tmp := Ev{}
 			c06Observe(tmp, pmt, nil)
 			e["streams"], e["pids"] = tmp["streams"], tmp["pids"]
